@@ -156,6 +156,9 @@ def consumer_case(draw, tier):
         c["reverse"] = draw(st.booleans())
         c["strict"] = draw(st.booleans())
         c["presort"] = presort
+        # the table handed to issorted may itself be a petl sort view (same key and direction, the opposite direction, or
+        # sorted by the first field only): what it delivers is what is judged
+        c["view"] = draw(st.sampled_from([None, None, "same", "same", "opposite", "first"]))
     elif kind == "selector":
         c["selector"] = draw(st.sampled_from(SELECTORS))
         c["field"] = draw(st.sampled_from(hdr))
@@ -201,17 +204,25 @@ def check_consumer(case, ctx):
         key, reverse, strict = case["key"], case["reverse"], case["strict"]
         t = R.ref_sort(tbl, key, reverse) if case["presort"] else tbl
         t = [list(r) for r in t]
+        vw = case.get("view")
+        if vw:
+            vkey, vrev = (0, False) if vw == "first" else (key, reverse if vw == "same" else not reverse)
+            rows_seen = [list(r) for r in R.ref_sort(tbl, vkey, vrev)]
+            t = etl.sort(codec.snapshot(tbl), vkey, reverse=vrev)
+            ctx.label("input:sortview-" + vw)
+        else:
+            rows_seen = t
         idx = list(range(len(hdr))) if key is None else R.resolve(hdr, key)
-        keys = [R.keyof(r, idx) for r in t[1:]]
+        keys = [R.keyof(r, idx) for r in rows_seen[1:]]
         exp = R.is_sorted_seq(keys, reverse=reverse, strict=strict)
         ctx.label("issorted:%s" % exp)
-        ctx.nontrivial(len(t) > 2 and _nontrivial(cells))
+        ctx.nontrivial(len(rows_seen) > 2 and _nontrivial(cells))
         try:
             got = etl.issorted(t, key=key, reverse=reverse, strict=strict)
         except Exception as ex:
             return exc_fail("issorted", ex)
         if bool(got) != exp:
-            return Fail("issorted/verdict", "issorted(%r, key=%r, reverse=%r, strict=%r) = %r, reference %r" % (t, key, reverse, strict, got, exp))
+            return Fail("issorted/verdict", "issorted(%r, key=%r, reverse=%r, strict=%r) = %r, reference %r (input: %s)" % (rows_seen, key, reverse, strict, got, exp, "sort view " + vw if vw else "list"))
         return None
     if kind == "sort":
         key, reverse = case["key"], case["reverse"]
